@@ -197,8 +197,8 @@ func (msg Message) Generate(w io.Writer, settings GenerateSettings) {
 	msg.generateEncodeBebop(ew, settings, fields)
 	msg.generateDecodeBebop(ew, settings, fields)
 	msg.generateSize(ew, settings, fields)
-	isEmpty := len(msg.Fields) == 0
-	writeWrappers(ew, msg.Name, isEmpty, settings)
+	// a message without fields still occupies its length prefix and terminator on the wire
+	writeWrappers(ew, msg.Name, false, settings)
 }
 
 func writeMessageFieldUnmarshaller(name string, typ FieldType, w *iohelp.ErrorWriter, settings GenerateSettings, depth int) {
